@@ -11,7 +11,7 @@
    exchange is the known finding witnessed by [C12_after_failed_exchange_refuted]. *)
 From Coq Require Import ZArith QArith List Bool.
 From NV Require Import Base.Result Base.Bytes Model.IsoDep Model.TagAct Gen.IsoDepK Proofs.IsoDep Proofs.IsoDepSync Proofs.IsoDepLegacy
-  Proofs.IsoDepApdu Proofs.IsoDepStream Bridge.IsoDep.
+  Proofs.IsoDepApdu Proofs.IsoDepStream Proofs.IsoDepSession Bridge.IsoDep.
 Import ListNotations.
 Open Scope Z_scope.
 
@@ -102,6 +102,37 @@ Theorem C12_send_apdu_sound : forall app k kc cla ins p1 p2 data mrl check pn c,
 Proof. exact send_apdu_sound. Qed.
 Print Assumptions C12_send_apdu_sound.
 
+(* ---- sessions: APDUs exchanged one after the other on the same tag object and card; all rounds draw their fates
+   from ONE script ([session1]: each exchange continues where the previous one stopped) ----
+   [sess_spec app e cmds outs], for the card log e before the session, says for the i-th exchange, as long as all
+   earlier ones returned a value:  Ok r ->  (b) r is the response to its own command, (a) the log grew by exactly that
+   command, (c) reader and card are in step again, and the rest of the session satisfies the spec;
+   Type4TagCommandError (or fuel exhausted) -> the log grew by at most that one command, and NOTHING is claimed
+   about later exchanges; raw clf errors and crashes do not occur. *)
+Theorem C12_session_sound : forall app k kc, repaired k -> params_ok k kc ->
+  forall cmds fuel sc pn c, in_step pn c -> Forall (fun x => 0 < len (fst x)) cmds ->
+  sess_spec app (execs c) cmds (session1 app fuel k kc pn c cmds sc).
+Proof. exact session_sound. Qed.
+Print Assumptions C12_session_sound.
+(* hence: if every exchange returned a value, the values are the responses to their own commands, in order, and the
+   card's log is exactly the list of commands, each executed once, in order - for every script and every WTX plan *)
+Theorem C12_session_all_ok : forall app k kc, repaired k -> params_ok k kc ->
+  forall cmds fuel sc pn c, in_step pn c -> Forall (fun x => 0 < len (fst x)) cmds ->
+  let outs := session1 app fuel k kc pn c cmds sc in
+  Forall (fun o => is_ok (o_res o) = true) outs ->
+  map o_res outs = expected app (execs c) cmds /\ final_log (execs c) outs = execs c ++ map fst cmds.
+Proof. exact session_all_ok. Qed.
+Print Assumptions C12_session_all_ok.
+(* the boundary made explicit: the known finding is the exchange AFTER the first failed one.  Budget 1, one script
+   DL DL DL: exchange 1 fails with TIMEOUT_ERROR (the session theorem holds and claims nothing beyond it);
+   exchange 2 - a single lost block - executes its APDU twice and returns the second execution's response *)
+Theorem C12_session_boundary_refuted :
+  sess_spec demo_app [] boundary_cmds boundary_session /\
+  map o_res boundary_session = [Err (TagCommandError E_TIMEOUT); Ok (demo_app 2 [255; 2; 0; 5])] /\
+  map (fun o => execs (o_card o)) boundary_session = [[[255; 1; 0; 5]]; [[255; 1; 0; 5]; [255; 2; 0; 5]; [255; 2; 0; 5]]].
+Proof. exact session_boundary. Qed.
+Print Assumptions C12_session_boundary_refuted.
+
 (* ---- the reader as pinned (fix flags off) violates the property: concrete runs ---- *)
 (* S(WTX) answered outside the try: one lost block, within the budget, escapes as raw nfc.clf.TimeoutError *)
 Theorem C12_legacy_wtx_raw_timeout_refuted :
@@ -130,12 +161,12 @@ Theorem C12_isodep_terminates_any_responder : forall k cmd,
   run_stream fuel k cmd (pcd_start k cmd pn) s 0 <> Hang.
 Proof. exact stream_terminates. Qed.
 Print Assumptions C12_isodep_terminates_any_responder.
-(* ... but an S(WTX) block without WTXM byte still raises IndexError (data[1]) in the pinned code and with the
-   c12 repairs alone; repaired by fixes/c08-03 (Type4TagCommandError), which Model/TagReadAnyB.v models - this
-   lemma is about [pcd_absorb] without that repair; a conformant card never sends such a block *)
+(* ... an S(WTX) block without WTXM byte raised IndexError (data[1]) in the pinned reader; at HEAD
+   (fixes/c08-03, flags on) it is Type4TagCommandError(PROTOCOL_ERROR); for C08 *)
 Theorem C12_short_wtx_crash_refuted :
-  run_stream 5 k_repaired [0; 164; 0; 0] (pcd_start k_repaired [0; 164; 0; 0] 0) (fun _ => ARx [242]) 0 = Crash IndexErr /\
-  run_stream 5 k_legacy [0; 164; 0; 0] (pcd_start k_legacy [0; 164; 0; 0] 0) (fun _ => ARx [242]) 0 = Crash IndexErr.
+  run_stream 5 k_legacy [0; 164; 0; 0] (pcd_start k_legacy [0; 164; 0; 0] 0) (fun _ => ARx [242]) 0 = Crash IndexErr /\
+  run_stream 5 k_repaired [0; 164; 0; 0] (pcd_start k_repaired [0; 164; 0; 0] 0) (fun _ => ARx [242]) 0
+    = Err (TagCommandError E_PROTOCOL).
 Proof. exact short_wtx_crash. Qed.
 Print Assumptions C12_short_wtx_crash_refuted.
 
@@ -211,8 +242,7 @@ Theorem C12_bridge_tests : forall b0 inf pn i n,
 Proof. exact bridge_tests. Qed.
 Print Assumptions C12_bridge_tests.
 (* ... and, composed along the control skeleton the generator matched statement by statement, they ARE the
-   model's transition function (all three repairs in; the one difference to the committed code is an S(WTX)
-   block without WTXM byte: IndexError in the model, PROTOCOL_ERROR since fixes/c08-03 - see Model/TagReadAnyB.v) *)
+   model's transition function (all three repairs in, S(WTX) without WTXM -> PROTOCOL_ERROR as at HEAD) *)
 Theorem C12_bridge_pcd_start : forall k cmd pn, 0 < miu k -> 0 < len cmd ->
   pcd_start k cmd pn = mkp pn (PSend 0 1 (gen_send_data (gen_pfb (gen_more cmd 0 (miu k)) pn) cmd 0 (miu k))).
 Proof. exact bridge_pcd_start. Qed.
@@ -233,3 +263,11 @@ Example C12_nonvacuous :
   (let o := exchange demo_app 900 k_nv kc16 nv_cmd 0 nv_card nv_script in
    o_res o = Ok (demo_app 0 nv_cmd) /\ execs (o_card o) = [nv_cmd] /\ length (o_blocks o) = 10%nat).
 Proof. exact (conj nv_hyps nv_run). Qed.
+
+(* non-vacuity (sessions): three exchanges from the activated state - a 20-byte command / 20-byte response chained both
+   ways with one lost block (absorbed), a short one, a 30-byte response with an S(WTX) - all return their own responses *)
+Example C12_session_nonvacuous :
+  map o_res nvs_session = [Ok (demo_app 0 nv_cmd); Ok (demo_app 1 [255; 9; 0; 3]); Ok (demo_app 2 [255; 3; 0; 30])] /\
+  final_log [] nvs_session = [nv_cmd; [255; 9; 0; 3]; [255; 3; 0; 30]] /\
+  map (fun o => length (o_blocks o)) nvs_session = [5%nat; 1%nat; 4%nat].
+Proof. exact nvs_run. Qed.
